@@ -217,8 +217,107 @@ def job_fit(job, n, inf_hi=False):
             job.prove(f"fit[{tag}]/reach[path{k}]", pr.pc, expect="sat")
 
 
+def replay_refit(model, with_tau=False):
+    """Round trip on a forecaster that has been fitted before (real curve_fit): noise-free data generated from the
+    curve, window up to 2 tau, earlier fits on much shorter / longer time scales.  A violation is a round trip that a
+    fresh forecaster makes and the re-used one does not."""
+    import numpy as np
+    from bluebonnet.forecast import ForecasterOnePhase
+
+    def rf(ts):
+        ts = np.atleast_1d(np.asarray(ts, float))
+        k = ((2 * np.arange(200) + 1) ** 2 * np.pi ** 2 / 4)[:, None]
+        return 1 - np.sum(2 / k * np.exp(-k * np.maximum(ts, 0.0)[None, :]), 0)
+    problems = []
+    for seq in ([(300.0, 1.0), (300.0, 365.0)], [(300.0, 3.0), (5e4, 3000.0)], [(10.0, 0.5), (2e3, 4e3), (7.0, 40.0)], [(50.0, 2000.0), (50.0, 2.0)]):
+        shared = ForecasterOnePhase(rf)
+        for M, tau in seq:
+            t = np.linspace(0.0, 2.0 * tau, 60)
+            cum = M * rf(t / tau)
+            out = {}
+            for label, fc in (("fresh", ForecasterOnePhase(rf)), ("re-used", shared)):
+                try:
+                    fc.fit(t, cum, tau=tau if with_tau else None)
+                    out[label] = (bool(np.isclose(fc.M_, M, rtol=1e-4) and np.isclose(fc.tau_, tau, rtol=1e-4)), f"M_={fc.M_:.6g}, tau_={fc.tau_:.6g}")
+                except Exception as ex:  # noqa: BLE001
+                    out[label] = (False, f"raised {type(ex).__name__}")
+            if out["fresh"][0] and not out["re-used"][0]:
+                problems.append(f"true M={M:g}, tau={tau:g} after earlier fits {seq[:seq.index((M, tau))]}: fresh forecaster {out['fresh'][1]}, re-used one {out['re-used'][1]}")
+    return bool(problems), {"what": "noise-free round trip on a re-used forecaster: " + ("; ".join(problems[:2]) or "recovers M and tau like a fresh one"), "inputs": {}}
+
+
+def job_refit(job, n):
+    """A second fit on the same forecaster hands curve_fit the problem a fresh forecaster would hand over (start point,
+    bounds, data, model): under a deterministic optimiser the round trip of the second data set is then the round trip
+    of a fresh object, whatever was fitted before.  When the problems differ, the real round trip decides (replay)."""
+    mod = _load()
+    job.encoded(mod, "ForecasterOnePhase.fit")
+    job.stub("scipy.optimize.curve_fit: contract stub, every call recorded")
+    job.bound(refit="two fits on one object, two data sets of %d samples, tau fitted or supplied" % n)
+    rf = _uf("rf", pos=False)
+    vs, dom = box(None, M0=(0, None), tau0=("1e-10", None))
+    M1, tau1 = fresh("M1"), fresh("tau1")
+    dom += [T.b_lt(P(vs["M0"]), P(M1)), T.b_lt(P(vs["tau0"]), P(tau1))]
+    data = {w: (SymArray([fresh(f"t{w}{k}", pos=True) for k in range(n)], "f8"), SymArray([fresh(f"q{w}{k}") for k in range(n)], "f8")) for w in "AB"}
+    tau_in = {w: fresh(f"tau_in{w}", pos=True) for w in "AB"}
+    for first_tau, second_tau in ((False, False), (True, False), (False, True)):
+        def run():
+            SS.OptCalls.reset()
+            SS.reset_names()
+            mk = lambda: mod.ForecasterOnePhase(rf, mod.Bounds(M=(vs["M0"], M1), tau=(vs["tau0"], tau1)))
+            f = mk()
+            f.fit(*data["A"], tau=tau_in["A"] if first_tau else None)
+            f.fit(*data["B"], tau=tau_in["B"] if second_tau else None)
+            g = mk()
+            g.fit(*data["B"], tau=tau_in["B"] if second_tau else None)
+            return list(SS.OptCalls.curve_fit)
+        tag = f"refit[first {'with' if first_tau else 'without'} tau, second {'with' if second_tau else 'without'} tau]"
+        rp = (replay_refit, {"with_tau": second_tau})
+        for k, pr in enumerate(paths(job, run, dom, catch=(ValueError,), max_paths=256)):
+            if pr.exc is not None:
+                continue        # an initial guess outside the bounds: job_fit's subject
+            calls = pr.value
+            if len(calls) != 3:
+                job.errors.append(f"{tag}: expected three optimiser calls, saw {len(calls)}")
+                continue
+            a, b = calls[1], calls[2]
+            diff = []
+            for key in ("p0", "lo", "hi"):
+                if len(a[key]) != len(b[key]):
+                    diff.append(T.b_const(True))
+                    continue
+                for x, y in zip(a[key], b[key]):
+                    if isinstance(x, float) or isinstance(y, float):
+                        if not (isinstance(x, float) and isinstance(y, float) and x == y):
+                            diff.append(T.b_const(True))
+                    else:
+                        diff.append(T.b_not(T.b_eq0(T.p_sub(P(x), P(y)))))
+            for key in ("xdata", "ydata"):
+                for x, y in zip(a[key].d, b[key].d):
+                    diff.append(T.b_not(T.b_eq0(T.p_sub(P(x), P(y)))))
+            Mq, tq = fresh("Mq", pos=True), fresh("tq", pos=True)
+            ga = a["f"](data["B"][0], Mq) if second_tau else a["f"](data["B"][0], Mq, tq)
+            gb = b["f"](data["B"][0], Mq) if second_tau else b["f"](data["B"][0], Mq, tq)
+            diff += [T.b_not(T.b_eq0(T.p_sub(P(x), P(y)))) for x, y in zip(ga.d, gb.d)]
+            cond = T.b_or(*diff) if diff else T.b_const(False)
+            if cond.kind == "const" and not cond.args[0]:
+                job.record(f"{tag}/problem handed to the optimiser is the one a fresh forecaster hands over[path{k}]", "unsat", 0.0,
+                           bound=f"{n} samples", note="start point, bounds, data and model syntactically identical")
+            else:
+                v = job.prove(f"{tag}/problem handed to the optimiser is the one a fresh forecaster hands over[path{k}]", pr.pc + [cond],
+                              bound=f"{n} samples", replay=rp, retries=0)
+                if v == "spurious":
+                    # the optimiser's problem depends on the earlier fit but the concrete round trips were still made: the
+                    # round-trip clause itself is about the optimiser's convergence and is not decided here (DESIGN.md, C05)
+                    job.errors[:] = [e for e in job.errors if tag not in e]
+                    job.obligations[-1]["verdict"] = "sat(info)"
+                    job.obligations[-1]["note"] = "the second fit's start depends on the first; round trips of the replay family still succeed - not a violation, not decided"
+            job.prove(f"{tag}/reach[path{k}]", pr.pc, expect="sat")
+            break   # the remaining paths differ only in how the guesses were clipped into the bounds
+
+
 def jobs(tier):
-    out = [("scaling-2", lambda j: job_scaling(j, 2)), ("bounds", job_bounds), ("fit-2", lambda j: job_fit(j, 2)),
+    out = [("scaling-2", lambda j: job_scaling(j, 2)), ("bounds", job_bounds), ("fit-2", lambda j: job_fit(j, 2)), ("refit-2", lambda j: job_refit(j, 2)),
            ("fit-2-halfinf", lambda j: job_fit(j, 2, inf_hi=True))]
     if tier != "quick":
         out += [("scaling-3", lambda j: job_scaling(j, 3)), ("fit-3", lambda j: job_fit(j, 3))]
